@@ -33,8 +33,9 @@ type Case struct {
 type Round struct {
 	N   int   `json:"n"`
 	Seq []int `json:"seq"`
-	// Update: the sender updates its traffic keys (DTLS 1.3) before writing this round's records.
-	Update bool `json:"upd,omitempty"`
+	// Updates: the sender updates its traffic keys (DTLS 1.3) this many times before writing this
+	// round's records (four updates bring the two epoch bits on the wire back to the same value).
+	Updates int `json:"upds,omitempty"`
 	// Old: after this round's arrivals, datagrams already read in EARLIER rounds (possibly under
 	// an earlier epoch) arrive again; indexes into the list of all datagrams read so far.
 	Old []int `json:"old,omitempty"`
@@ -96,7 +97,7 @@ func run(c Case, r *pbt.R) {
 		tag := uint32(0)
 		var readBefore [][]byte // datagrams whose payload was read in an earlier round
 		for ri, rd := range c.Rounds {
-			if rd.Update && c.Variant == "v13" {
+			for u := 0; u < rd.Updates && c.Variant == "v13"; u++ {
 				ctx, cancel := context.WithTimeout(context.Background(), time.Minute)
 				err := snd.Conn.UpdateKeys(ctx, dtls.KeyUpdateOptions{})
 				cancel()
@@ -106,7 +107,7 @@ func run(c Case, r *pbt.R) {
 
 					return
 				}
-				r.Class("key-update-between-rounds")
+				r.Classf("key-updates-between-rounds=%d", min(rd.Updates, 9))
 			}
 			// capture N fresh records
 			p.Net.Blocked[snd.Name] = true
@@ -201,7 +202,7 @@ func run(c Case, r *pbt.R) {
 				gt := binary.BigEndian.Uint32(g[4:])
 				if gi < 0 || gi >= rd.N || gt != tag-uint32(rd.N)+uint32(gi)+1 { //nolint:gosec
 					if len(rd.Old) > 0 {
-						r.Failf("C06|delivered-twice|old-epoch-replay", "round %d (%s, update=%v): a datagram already read in an earlier round was read again when it arrived a second time: %x", ri, c.Variant, rd.Update, g)
+						r.Failf("C06|delivered-twice|old-epoch-replay", "round %d (%s, updates=%d): a datagram already read in an earlier round was read again when it arrived a second time: %x", ri, c.Variant, rd.Updates, g)
 					} else {
 						r.Failf("C06|stale-payload", "round %d: payload of an earlier round delivered: %x", ri, g)
 					}
@@ -231,7 +232,7 @@ func run(c Case, r *pbt.R) {
 			if edge {
 				cls = append(cls, "window-edge")
 			}
-			r.Eval(fmt.Sprintf("%s|%d|%v|%d|%v|%v|%v", c.Variant, W, c.FromSrv, rd.N, rd.Seq, rd.Update, rd.Old), hasRep && hasOOO, cls...)
+			r.Eval(fmt.Sprintf("%s|%d|%v|%d|%v|%v|%v", c.Variant, W, c.FromSrv, rd.N, rd.Seq, rd.Updates, rd.Old), hasRep && hasOOO, cls...)
 		}
 	})
 	if berr != nil {
@@ -315,7 +316,7 @@ func gen(t *rapid.T) Case {
 	for i := 0; i < nr; i++ {
 		rd := genRound(t, c.Window)
 		if i > 0 && rapid.IntRange(0, 2).Draw(t, "old") == 0 {
-			rd.Update = rapid.Bool().Draw(t, "update")
+			rd.Updates = rapid.SampledFrom([]int{0, 1, 1, 2, 3, 4, 4, 5, 8}).Draw(t, "updates")
 			rd.Old = rapid.SliceOfN(rapid.IntRange(0, 200), 1, 6).Draw(t, "oldidx")
 		}
 		c.Rounds = append(c.Rounds, rd)
